@@ -138,6 +138,10 @@ func (e *Engine) rootsFor(prop string) (jobs []rootJob, problems []string) {
 			problems = append(problems, fmt.Sprintf("anchor-missing: interface contract %s has no implementation", fc.Key))
 		}
 		for _, fn := range impls {
+			if reason, skip := fc.SkipImpl[e.keyOf(fn)]; skip {
+				e.skipped = append(e.skipped, fmt.Sprintf("%s not verified against %s: %s", e.shortName(fn), fc.Key, reason))
+				continue
+			}
 			addJob(rootJob{fn: fn, fc: fc, names: fc.ParamNames, reason: "implements " + fc.Key})
 		}
 	}
